@@ -6,7 +6,7 @@
 From Coq Require Import ZArith List Bool.
 From LV Require Import Enc.EncBase Enc.Subrect Enc.SubrectProofs Enc.Raw Enc.RRE Enc.Hextile Enc.Zlib Enc.ZRLE
      Enc.Update Enc.RawRREProofs Enc.HextileProofs Enc.SplitProofs Enc.StreamProofs
-     Enc.ZRLEProofs1 Enc.ZRLEProofs4 Enc.ZRLEFormatProofs Enc.UpdateProofs Enc.Tight Enc.TightProofs Enc.TightSplit Enc.TightSplitProofs Enc.TightSessionProofs Enc.TightUniform Enc.TightSessionFull Enc.TightSplitTotal Enc.BytesProofs Enc.TotalProofs Enc.ZRLETotal Enc.TightTotal Enc.SendAll Enc.ZRLESendProofs Enc.Session Enc.SessionProofs
+     Enc.ZRLEProofs1 Enc.ZRLEProofs4 Enc.ZRLEFormatProofs Enc.UpdateProofs Enc.Tight Enc.TightProofs Enc.TightSplit Enc.TightSplitProofs Enc.TightSessionProofs Enc.TightUniform Enc.TightSessionFull Enc.TightSplitTotal Enc.BytesProofs Enc.TotalProofs Enc.ZRLETotal Enc.TightTotal Enc.SendAll Enc.ZRLESendProofs Enc.Session Enc.SessionProofs Enc.TightWire Enc.TightWireProofs Enc.Connection
      Dec.SpecPaint Dec.SpecRaw Dec.SpecRRE Dec.SpecHextile Dec.SpecZRLE Dec.SpecTight Dec.SpecUpdate Gen.Consts_C01.
 Import ListNotations.
 
@@ -296,8 +296,8 @@ Proof. exact send_rect_ok. Qed.
    any order for the encodings of send_rect; Zlib and ZRLE payloads go through two compressors whose
    states persist for the connection (paired oracle states), Ultra through the stateless LZO oracle;
    hypotheses on the external code: round trip on non-empty data only.  Tight rectangles (4 streams,
-   stream id in the control byte, <12-byte bypass, compact lengths) are NOT covered here: see
-   C01_tight_session_partial + C01_stream_history. ---- *)
+   stream id in the control byte, <12-byte bypass, compact lengths) are covered by C01_session_tight, the whole
+   connection with every encoding by C01_session. ---- *)
 Theorem C01_session_nontight : forall (cstate dstate : Type)
   (compress : cstate -> list Z -> list Z * cstate) (decompress : dstate -> list Z -> option (list Z * dstate))
   (sync : cstate -> dstate -> Prop) (lzo : list Z -> list Z) (unlzo : list Z -> option (list Z)),
@@ -315,6 +315,55 @@ Example C01_session_nonvacuous :
     [Update 0 0 3 2 [[1; 2; 2]; [1; 2; 3]]%Z; SetParams (mkParams 5 1 1 48 48 0 false); Update 1 0 2 2 [[1; 2; 2]; [1; 2; 3]]%Z] = Ok wire
     /\ length wire = 2.
 Proof. eexists. split; [vm_compute; reflexivity|reflexivity]. Qed.
+
+(* ---- the Tight wire layer (TightWire.v): four zlib streams that persist for the connection, stream id in
+   bits 4-5 of the compression-control byte, reset bits 0-3 (honoured by the client, never set by this server),
+   data shorter than TIGHT_MIN_TO_COMPRESS = 12 bytes sent as it is, otherwise compact length (1-3 bytes) ++
+   stream output; compress takes the level (deflateParams keeps the stream state).  For every history of Tight
+   updates (fill / mono / indexed / full-colour rectangles in any mix, with or without the LastRect search,
+   parameters changing from update to update) the specification's client with four paired inflate states
+   obtains for every rectangle the pixels of the screen of that update.  Hypotheses on zlib: round trip on
+   non-empty data for paired states, per stream.  tstep_ok: well-formed request, screen = pixel-wise translation
+   of the framebuffer, TPIXEL-faithful pixels, tightConf row 1-3, no JPEG quality level. ---- *)
+Theorem C01_session_tight : forall (cstate dstate : Type)
+  (compress : Z -> cstate -> list Z -> list Z * cstate) (decompress : dstate -> list Z -> option (list Z * dstate))
+  (dinit : dstate) (sync : cstate -> dstate -> Prop),
+  (forall lvl cs ds data, data <> [] -> sync cs ds ->
+     exists ds', decompress ds (fst (compress lvl cs data)) = Some (data, ds') /\ sync (snd (compress lvl cs data)) ds') ->
+  forall steps cs ds wire,
+  Forall tstep_ok steps -> sync4 cstate dstate sync cs ds ->
+  run_tight_session cstate compress cs steps = Some wire ->
+  exists grids, client_tight_session dstate decompress dinit ds steps wire = Some grids /\
+                tsession_pixels steps wire grids.
+Proof. exact tight_session_roundtrip. Qed.
+
+(* one rectangle through the wire layer, and the compact length *)
+Theorem C01_tight_compact_len : forall n r, (0 <= n < 4194304)%Z -> take_compact_len (compact_len n ++ r) = Some (n, r).
+Proof. exact compact_len_roundtrip. Qed.
+
+(* ---- THE WHOLE CONNECTION, every encoding: parameter changes, updates with the encodings of send_rect and
+   Tight updates in any order; six persistent zlib streams (Zlib, ZRLE, Tight 0-3) + stateless LZO ---- *)
+Theorem C01_session : forall (cstate dstate : Type)
+  (compress : Z -> cstate -> list Z -> list Z * cstate) (decompress : dstate -> list Z -> option (list Z * dstate))
+  (dinit : dstate) (sync : cstate -> dstate -> Prop) (lzo : list Z -> list Z) (unlzo : list Z -> option (list Z)) (zlevel : Z),
+  (forall lvl cs ds data, data <> [] -> sync cs ds ->
+     exists ds', decompress ds (fst (compress lvl cs data)) = Some (data, ds') /\ sync (snd (compress lvl cs data)) ds') ->
+  (forall data, data <> [] -> unlzo (lzo data) = Some data) ->
+  forall steps p cs2 ds2 cs4 ds4 wire,
+  conn_ok p steps -> sync3 cstate dstate sync cs2 ds2 -> sync4 cstate dstate sync cs4 ds4 ->
+  run_conn cstate compress lzo zlevel p cs2 cs4 steps = Some wire ->
+  exists grids, client_conn dstate decompress dinit unlzo p ds2 ds4 steps wire = Some grids /\ conn_pixels steps wire grids.
+Proof. exact conn_roundtrip. Qed.
+
+(* non-vacuity: a Zlib update and a Tight update (16 data bytes: compact length + stream 0) on one connection *)
+Example C01_session_whole_nonvacuous :
+  let g4 := [[1; 2; 3; 4]; [5; 6; 7; 8]; [9; 10; 11; 12]; [13; 14; 15; 16]]%Z in
+  let steps := [CNT (Update 0 0 3 2 [[1; 2; 2]; [1; 2; 3]]%Z); CT (TUpd (mkTP 1 false false 0 0 0 1 false false true) false 0 0 4 4 g4 g4)] in
+  let p := mkParams 6 1 1 48 48 0 false in
+  exists wire, run_conn unit (fun _ cs pl => (pl, cs)) (fun pl => pl) 0%Z p (tt, tt) (tt, tt, tt, tt) steps = Some wire /\
+    client_conn unit (fun ds pl => Some (pl, ds)) tt (fun pl => Some pl) p (tt, tt) (tt, tt, tt, tt) steps wire =
+      Some [[[[1; 2; 2]; [1; 2; 3]]]; [g4]]%Z.
+Proof. eexists. split; vm_compute; reflexivity. Qed.
 
 (* C01_send_rect for ZRLE with the CPIXEL mode tied to the client format (not a free parameter): the mode
    the repaired server computes, decoded with the specification's mode; only hypothesis beyond
